@@ -194,7 +194,7 @@ func (x *runner) runSender(c senderCase, origin string) bool {
 	if !r.sync() {
 		healthy = false
 	}
-	before, _ := dataPackets(r.peer.snapshot()[start:], sid)
+	before, _ := dataPackets(r.peer.snapshotFrom(start), sid)
 	nBefore := len(before)
 	// close
 	var closeErr string
@@ -233,7 +233,7 @@ func (x *runner) runSender(c senderCase, origin string) bool {
 		x.dropRig()
 		return false
 	}
-	log := r.peer.snapshot()[start:]
+	log := r.peer.snapshotFrom(start)
 	pk, closeAt := dataPackets(log, sid)
 
 	// ---- implementation oracle (independent of the Coq model) ----
